@@ -11,11 +11,16 @@ Record c09case := {
   c_segDurMS : Z;
   c_atoMS : Z;                (* int(ato*1000) as evaluated by Go: enters the chunk duration *)
   c_atoChk : Z;               (* ato in exact milliseconds: enters the availability decision *)
+  c_atoMicro : option Z;      (* ato in exact microseconds, None = +Inf: enters the request guard *)
+  c_guard : bool;             (* the tree has the request guard of chunked mode (read from the source) *)
+  c_guardOK : bool;           (* [ato >= 0 && ato*1000 < float64(SegmentDurMS)] as float64 evaluates it (by the harness,
+                                 same Go expression); must equal the exact [chunkGuardOK] except when the offset is
+                                 exactly the segment duration, where the float product can fall below it *)
   c_ts : Z;
   c_startS : Z;
   c_availMS : Z;              (* advertised end of the segment on the wall clock; < 0: no status decision *)
   c_nowMS : Z;
-  o_status : Z;               (* 0 served, 1 too early, 2 panic, 3 other *)
+  o_status : Z;               (* 0 served, 1 too early, 2 panic, 3 other, 4 bad request *)
   o_chunks : list (bool * Z * Z * Z * Z);  (* styp, sequence number, tfdt, number of samples, chk.dur or -1 *)
   o_writes : list Z           (* real-time cases: instant (request wall clock, ms) of the first Write of each chunk *)
 }.
@@ -29,8 +34,11 @@ Definition chunk_view (c : chunk) : bool * Z * Z * Z * Z :=
 Definition case_chunkDur (c : c09case) : Z :=
   match c_chunkDur c with Some d => d | None => chunkDurOf (c_segDurMS c) (c_atoMS c) (c_ts c) end.
 
+Definition is_l1 (c : c09case) : bool := match c_chunkDur c with None => true | Some _ => false end.
+
 Definition run_case (c : c09case) : Z * list (bool * Z * Z * Z * Z) * list Z :=
-  if (0 <=? c_availMS c) && tooEarly (c_availMS c) (c_atoChk c) (c_nowMS c) then (1, [], [])
+  if is_l1 c && c_guard c && negb (c_guardOK c) then (4, [], [])
+  else if (0 <=? c_availMS c) && tooEarly (c_availMS c) (c_atoChk c) (c_nowMS c) then (1, [], [])
   else if (0 <=? c_availMS c) &&
           match checkTime (c_availMS c) 1000 (c_nowMS c) 60 (Some (c_atoChk c)) with TvGone => true | _ => false end
        then (3, [], [])   (* 410 Gone: default timeShiftBufferDepth 60 s + margin *)
@@ -48,6 +56,10 @@ Definition view_eqb (m o : bool * Z * Z * Z * Z) : bool :=
 Definition case_ok (c : c09case) : bool :=
   let '(st, cs, av) := run_case c in
   (st =? o_status c) && list_eqb view_eqb cs (o_chunks c) &&
+  (* the millisecond value the Go expression gives is the rounded offset *)
+  match c_atoMicro c with Some a => negb (is_l1 c) || (c_atoMS c =? roundMilli a) | None => true end &&
+  (negb (is_l1 c) || Bool.eqb (c_guardOK c) (chunkGuardOK (c_atoMicro c) (c_segDurMS c)) ||
+   match c_atoMicro c with Some a => a =? c_segDurMS c * 1000 | None => false end) &&
   match o_writes c with
   | [] => true
   | ws => list_eqb (fun a w => a <=? w) av ws
